@@ -10,6 +10,8 @@ THEOREMS = [
     ('EAO.Properties.C04', 'EAO.C04.value_accounting_split', 'the same for split problems: interval by interval, summed'),
     ('EAO.Properties.C03', 'EAO.C03.blockSum_value', 'value of the block-diagonal sum of interval problems = sum of interval values'),
 ]
+from ..comp import resultvalue as _RV
+THEOREMS = THEOREMS + _RV.THEOREMS_C04_RESULT
 COMPONENTS = ['hypotheses of the assembly theorems (well-formedness of asset problems) evaluated on every captured real asset problem', 'assemble (cost, mapping) on captured real asset problems', 'readout.dcf vs Asset.dcf / io.extract_output["DCF"] (MIP / LP optimum and the relaxed solution of problems with booleans)']
 RULE = ('random portfolios incl. periodic, coarse-frequency, scaled, structured assets and order books; mono and split; '
         'every split solution is re-optimised as a split problem with whole intervals pinned to it through fix_time_window (a prefix = the past, a subset, or all; '
@@ -128,9 +130,17 @@ def scenarios(seed, tier):
     rnd5 = random.Random(seed * 7919 + 4 + 1700017)
     for i in range(n // 4):
         yield 'call%d' % i, CF.gen_case(random.Random(rnd5.getrandbits(48)), tmax=10 if tier == 'quick' else 16)
+    # how optimize fills results.value (model EAO/Model/ResultValue.lean): its defining equations on the real code, targets in any letter case
+    for i in range(6 if tier == 'quick' else 30):
+        yield 'rv%d' % i, {'_stream': 'resultvalue', 'seed': seed * 1000 + i, 'n': 25}
 
 
 def run_case(scn, drv):
+    if scn.get('_stream') == 'resultvalue':
+        r0 = _RV.selftest(scn['n'], scn['seed'])
+        return {'evaluated': r0['counts']['cases'], 'nontrivial': r0['counts']['solved'] > 0, 'features': ['stream:resultvalue'],
+                'disagreements': [{'component': 'result value', 'detail': d['detail']} for d in r0['disagreements']],
+                'violations': [{'oracle': v.get('oracle', 'result_value'), 'detail': v.get('detail'), 'facts': v.get('facts', {})} for v in r0['violations']]}
     if scn.get('_stream') == 'entry':
         from ..comp import entry as EN
         return EN.run_stream_case(scn, ('value_accounting',))
